@@ -3,14 +3,18 @@ from kvfile import KVFile
 
 
 def saver(resource, db, batch_size):
-    gen = db.insert_generator(
-        (('{:08x}'.format(idx), row)
-         for idx, row
-         in enumerate(resource)),
-        batch_size=batch_size
-    )
-    for _, row in gen:
-        yield row
+    # The key-value file serialises a value only after it has handed it back to us,
+    # so it is given a private copy of each row: whatever a later step does to the
+    # row it receives, the duplicate holds the row as it was here.
+    originals = []
+
+    def copies():
+        for idx, row in enumerate(resource):
+            originals.append(row)
+            yield '{:08x}'.format(idx), copy.deepcopy(row)
+
+    for _ in db.insert_generator(copies(), batch_size=batch_size):
+        yield originals.pop()
 
 
 def loader(db):
